@@ -54,6 +54,7 @@ RULES = {
     "R22": _get(XR, "r22_update_alignment"),
     "R26": _get(XR, "r26_engine_control"),
     "R27": _get(XR, "r27_slot_identity"),
+    "R28": _get(XR, "r28_stateless_gradient_descent"),
 }
 
 # property -> rules (DESIGN.md section 4)
@@ -63,10 +64,10 @@ PROPERTY_RULES = {
     "C03": ["R11", "R21"],
     "C08": ["R1", "R2", "R3", "R4", "R7"],
     "C09": ["R8", "R9", "R10", "R5"],
-    "C10": ["R23", "R20", "R25", "R9", "R11", "R10", "R26"],
+    "C10": ["R23", "R20", "R25", "R9", "R11", "R10", "R26", "R24"],
     "C11": ["R24", "R5", "R27", "R6", "R26"],
-    "C12": ["R5", "R27", "R6", "R7", "R17"],
-    "C13": ["R21", "R22"],
+    "C12": ["R5", "R27", "R3", "R6", "R7", "R17"],
+    "C13": ["R21", "R22", "R28"],
     "C16": ["R16", "R3", "R17"],
     "C17": ["R13", "R14", "R26"],
     "C18": ["R20", "R21", "R7"],
@@ -106,19 +107,22 @@ EXPLANATION = {
            "(R10); flags are per-handle values copied by Clone (R5). Does NOT decide run-time flag values during a pass.",
     "C10": "Clause-level static verdict: only the engine touches counters/deltas/gradient slots (R23), a pending delta cannot be read "
            "without being emptied (R20d), the gradient slot adds (R25), every counted operand is delivered to (R9), in the owner's "
-           "shape (R11); tracking flags are restored after the derivative call (R10) and no engine branch reads adjoint values (R26). "
+           "shape (R11); tracking flags are restored after the derivative call (R10), counters move only under the protocol's guards (R24) and "
+           "no engine branch reads adjoint values (R26). "
            "Does NOT prove the counting invariant over all histories.",
     "C11": "Clause-level static verdict: the derivative closure is invoked at exactly one call site outside any loop; counting, "
            "decrementing and recursion are guarded by the shared consumer counter (R24); clones share that counter (R5,R6); no engine "
            "branch reads adjoint values (R26). "
            "Architecture-bound to the recursive counter engine.",
     "C12": "Clause-level static verdict (the anchored clause): Clone shares or copies every field correctly and every field has a "
-           "decided sharing class (R5); no body re-seats a shared slot of a handle (R27); graphs hold clones, never reconstructions (R6); "
+           "decided sharing class (R5); no body re-seats a shared slot of a handle (R27) or writes a handle's own dimensions/values in place (R3: "
+           "clones would stop showing the same array); graphs hold clones, never reconstructions (R6); "
            "drops are silent (R7); equality ignores "
            "per-handle state (R17).",
     "C13": "Clause-level static verdict: the value installed over a parameter is a fresh, graph-free, gradient-free, same-shape, "
            "tracked array built by the public constructor (R21); the traversal that fills the frozen-mask / flat buffers and the one that "
-           "consumes them visit the same parameters in a consistent order and select the same subset (R22). Does NOT decide the arithmetic old - lr*g.",
+           "consumes them visit the same parameters in a consistent order and select the same subset (R22); the optimizer has no "
+           "interior-mutable state, so an update cannot depend on earlier ones (R28). Does NOT decide the arithmetic old - lr*g.",
     "C16": "Clause-level static verdict: all refusal clauses via the constructor funnel and its dominating assertions plus no later "
            "write (R16,R3), and equality reads exactly dimensions and values as a conjunction (R17). Does NOT decide index arithmetic.",
     "C17": "Clause-level static verdict: linearity type system over every built-in backward closure and the engine's delta path "
